@@ -234,30 +234,27 @@ Proof.
 Qed.
 
 (* ---- the session counter ---- *)
-Fixpoint count_sessions (l : list (nat * wop)) : Z :=
-  match l with [] => 0 | (_, WSetSession) :: t => 1 + count_sessions t | _ :: t => count_sessions t end.
+(* the counter after a history: it counts the imb_set_session calls of ALL managers and nothing
+   else; no call reads it except imb_set_session, whose id is [sess] of it.  Together with
+   mgr_noninterference (whose [erase] removes nothing from an imb_set_session output but the id)
+   this is "the counter only affects the session id". *)
+Fixpoint ctr_after (c : Z) (l : list (nat * wop)) : Z :=
+  match l with
+  | [] => c
+  | (_, WSetSession) :: t => ctr_after ((c + 1) mod M64) t
+  | _ :: t => ctr_after c t
+  end.
 
-Lemma count_sessions_nonneg l : 0 <= count_sessions l.
-Proof. induction l as [|[j o] t IH]; cbn; [lia|]. destruct o; lia. Qed.
-
-(* the counter only counts imb_set_session calls (of all managers); with noninterference (which
-   erases nothing but the id itself) this is "the counter only affects the session id" *)
 Theorem session_counter_thm l : forall w,
-  g_counter (glob (fst (wrun w l))) = (g_counter (glob w) + count_sessions l) mod M64
-  \/ (count_sessions l = 0 /\ g_counter (glob (fst (wrun w l))) = g_counter (glob w)).
+  g_counter (glob (fst (wrun w l))) = ctr_after (g_counter (glob w)) l.
 Proof.
-  induction l as [|[j o] t IH]; intros w; [right; split; reflexivity|].
-  rewrite wrun_cons. cbn [fst].
-  destruct (IH (fst (wstep w j o))) as [H|[H0 H]].
-  - left. rewrite H. unfold Globals.wstep. destruct o.
-    + destruct (step SZ NJ MAXB (m_ring (mgrs w j)) o) as [s' r]; reflexivity.
-    + reflexivity.
-    + cbn [fst glob g_counter put_emem count_sessions]. rewrite Zplus_mod_idemp_l. f_equal. lia.
-    + reflexivity.
-    + reflexivity.
-  - destruct o; try (right; split; [exact H0|]; rewrite H; unfold Globals.wstep;
-                    try (destruct (step SZ NJ MAXB (m_ring (mgrs w j)) o) as [s' r]); reflexivity).
-    left. rewrite H. cbn [count_sessions]. rewrite H0. cbn. f_equal. lia.
+  induction l as [|[j o] t IH]; intros w; [reflexivity|].
+  rewrite wrun_cons. cbn [fst]. rewrite IH. unfold Globals.wstep. destruct o; cbn [ctr_after].
+  - destruct (step SZ NJ MAXB (m_ring (mgrs w j)) o) as [s' r]; reflexivity.
+  - reflexivity.
+  - reflexivity.
+  - reflexivity.
+  - reflexivity.
 Qed.
 
 (* ids handed out are [sess] of the counter at the time of the call *)
